@@ -52,7 +52,56 @@ def base_strings(tier: str, seed: int) -> List[bytes]:
     return out
 
 
+FOLLOW_BASES = [bytes([0x00]), bytes([0x08, 0x12]), bytes([0x90, 0x04]), bytes([0x32, 0x80, 0x10]), bytes([0x98, 0x00, 0x10]),
+                bytes([0xE3, 0x24, 0x10]), bytes([0x30, 0xB0, 0x25]), bytes([0x04, 0x34, 0x12])]
+
+
+def follower_items(tier: str):
+    """(base, chunk of followers): every two-byte instruction head (opcode x second byte, zero fill) after a few valid bases of
+    different shapes - whatever the look-ahead of the decoder does with the NEXT instruction must not change this one"""
+    bases = FOLLOW_BASES[:3] if tier == "quick" else FOLLOW_BASES
+    fws = [bytes([op, b2, 0, 0, 0]) for op in range(256) for b2 in range(256)]
+    if tier != "quick":
+        fws += [bytes([pre, op, b2, 0, 0]) for pre in (0x30, 0x25) for op in range(256) for b2 in B2_CLASSES]
+    out = []
+    for b in bases:
+        for i in range(0, len(fws), 64):
+            out.append((b + bytes(7 - len(b)), fws[i:i + 64], len(b)))
+    return out
+
+
 def _job(arg):
+    shard_id, items, tier, seed = arg
+    if tier.startswith("follow:"):
+        return _follow_job(shard_id, items)
+    return _base_job(arg)
+
+
+def _follow_job(shard_id, items):
+    sys.path.insert(0, str(vlib.VERIF / "harness" / "py"))
+    vlib.setup_repo_imports()
+    import decode_harness as dh
+    recs = []
+    for (rid, (b, fws, blen)) in items:
+        recs.append(dh.observe_followers(b[:blen], rid, 0x1000, fws))
+    d = vlib.scratch("C01")
+    tf = d / f"follow-{shard_id}.ndjson"
+    vlib.write_ndjson(tf, [{k: v for k, v in r.items() if k != "fw"} for r in recs])
+    res = run_tlc(SD, "JudgeDecode", "JudgeDecode.cfg", workers=1, env={"TRACE_FILE": str(tf)}, tag=f"C01-follow-{shard_id}", jvm=["-Xss128m"], heap="3g", timeout=3000)
+    verdict = None
+    for v in res.printed():
+        if isinstance(v, tuple) and v and v[0] == "JUDGE":
+            verdict = v
+    if verdict is None:
+        raise MachineryError(f"JudgeDecode did not complete (follower shard {shard_id}):\n{res.out[-2000:]}")
+    tf.unlink()
+    byid = {r["id"]: r for r in recs}
+    bad = [(int(x[0]), int(x[1]), str(x[2]), byid[int(x[0])]) for x in verdict[2]]
+    nrows = sum(len(r["o"]) for r in recs)
+    return len(recs), nrows, len(recs), bad[:3000], len(bad), [], 0
+
+
+def _base_job(arg):
     shard_id, items, tier, seed = arg
     sys.path.insert(0, str(vlib.VERIF / "harness" / "py"))
     vlib.setup_repo_imports()
@@ -115,6 +164,20 @@ def run(cr: CheckRun) -> None:
         for (rid, rowi, clause, b) in r[5][:5]:
             cr.add_drift(f"action=Decode clause={clause} bytes={bytes(b).hex()} row={rowi}")
         cr.cov["model_drift"] += max(0, r[6] - min(5, len(r[5])))
+    # 3. the follower campaign: a few valid bases x every two-byte instruction head as the next instruction
+    fitems = list(enumerate(follower_items(cr.tier), start=1))
+    nshf = vlib.NCPU * 2
+    fres = vlib.pmap(_job, [(1000 + i, fitems[i::nshf], "follow:" + cr.tier, cr.seed) for i in range(nshf)])
+    cr.mark("followers")
+    for r in fres:
+        nrows += r[1]
+        for (rid, rowi, clause, rec) in r[3]:
+            row = rec["o"][rowi - 1]
+            b = bytes(rec["b"])
+            fw = bytes(rec["fw"][rowi - 2]) if rowi >= 2 else b""
+            cr.violation(f"{clause}:ctx6", f"{clause}: bytes {b.hex()} decoded alone give {rec['o'][0]}, followed by {fw.hex()} they give {row}",
+                         {"bytes": list(b), "follower": list(fw), "clause": clause})
+    cr.cov["follower_rows"] = sum(r[1] for r in fres)
     cr.cov["evaluations"] += nrows
     cr.cov["traces_validated_against_impl"] += nrec
     cr.cov["distinct_nontrivial"] = nacc
@@ -125,7 +188,7 @@ def run(cr: CheckRun) -> None:
     cr.cov["trusted_base"] = ["harness/py/decode_harness.py", "TLC", "binja_test_mocks"]
     cr.assumptions += [
         "quick: no-prefix strings complete over opcode x second byte, prefixed strings over opcode x 35 second-byte classes; thorough: complete 16 x 256 x 256",
-        "bytes after the second byte are seeded fill; independence of later bytes is checked with three trailing contexts (valid / rejected / assertion-tripping) and truncations",
+        "bytes after the second byte are seeded fill; independence of later bytes is checked with three trailing contexts (valid / rejected / assertion-tripping), truncations, and the follower campaign (3 valid bases quick / 8 thorough x all 65536 two-byte heads as the next instruction)",
         "a clean rejection is: callback returns None / emulator fetch returns its fallback; any raised exception is an unexpected error",
     ]
 
@@ -136,7 +199,11 @@ def replay(path: str) -> int:
     import decode_harness as dh
     rec = json.loads(Path(path).read_text())["replay"]
     b = bytes(rec["bytes"])
-    o = dh.observe(b, 1, 0x1000, True, True, random.Random(1))
+    if "follower" in rec:
+        o = dh.observe_followers(b, 1, 0x1000, [bytes(rec["follower"])])
+        del o["fw"]
+    else:
+        o = dh.observe(b, 1, 0x1000, True, True, random.Random(1))
     for row in o["o"]:
         print(row)
     d = vlib.scratch("C01")
